@@ -1,4 +1,5 @@
 import Rtsp.Props.C01
+import Rtsp.Props.Bridge.Chan
 #print axioms Rtsp.C01.code_shape
 #print axioms Rtsp.C01.reader_isolation
 #print axioms Rtsp.C01.invariant_reachable
@@ -18,3 +19,5 @@ import Rtsp.Props.C01
 #print axioms Rtsp.C01.pause_forfeits_at_most_queue
 #print axioms Rtsp.C01.not_active_not_delivered
 #print axioms Rtsp.C01.second_play_is_noop
+#print axioms Rtsp.Bridge.Chan.pairOverlap_eq
+#print axioms Rtsp.Bridge.Chan.pairInUse_single
